@@ -116,7 +116,7 @@ def zint(v):
     if isinstance(v, bool):
         return z3.IntVal(1 if v else 0)
     if isinstance(v, int):
-        return z3.IntVal(v)
+        return z3.IntVal(int(v))          # int(): an IntEnum member prints as its name
     if isinstance(v, SBool):
         return z3.If(v.t, z3.IntVal(1), z3.IntVal(0))
     raise Unsupported("not an int value: %r" % (v,))
@@ -1798,8 +1798,12 @@ def _b_getattr(interp, node, obj, name, *default):
     return interp.getattr(obj, name, node)
 
 
+def _b_reversed(interp, node, v):
+    return list(reversed(interp.as_sequence(v, node)))
+
+
 _BUILTINS = {
-    id(getattr): _b_getattr,
+    id(getattr): _b_getattr, id(reversed): _b_reversed,
     id(zip): _b_zip, id(enumerate): _b_enumerate, id(set): _b_set, id(int): _b_int, id(str): _b_str, id(abs): _b_abs, id(max): _minmax(True), id(min): _minmax(False),
     id(len): _b_len, id(all): _b_all, id(any): _b_any, id(isinstance): _b_isinstance, id(tuple): _b_tuple,
     id(list): _b_list, id(range): _b_range, id(bool): _b_bool, id(sorted): _b_sorted,
